@@ -6,7 +6,7 @@ import z3
 from symx import And, Or, Not, Implies, eq, Sym
 from symx.fp import FPSym, U
 from symx.stubs import patched
-from .common import guarded, total
+from .common import guarded, total, check_state_coverage
 
 from ixai.utils.tracker import WelfordTracker, ExponentialSmoothingTracker
 
@@ -62,6 +62,7 @@ def _val(x):
 
 def _welford_mean_step(env, cfg):
     t = WelfordTracker()
+    check_state_coverage(t)
     N = env.real('N')
     env.assume(And(N >= 1, N <= 10 ** 6))
     m, e = env.real('m'), env.real('e')
@@ -92,6 +93,7 @@ def _smooth_step(env, cfg):
     a = env.real('alpha')
     env.assume(And(a >= Fraction(1, 10 ** 6), a <= 1))
     t = guarded(env, 'ctor', ExponentialSmoothingTracker, FPSym(a.t))
+    check_state_coverage(t)
     s, e = env.real('s'), env.real('e')
     v = FPSym(z3.Real('v'))
     env.assume(And(within(_val(v), 1), within(s, 1), within(e * a, C_SMOOTH * U)))
